@@ -166,6 +166,81 @@ def shared_name_partial_link(rng, r):
     return False
 
 
+def deep_link_compound(rng, r):
+    """A parameter linked TWO OR MORE levels down (a: N -> b.c.M) whose target declares an input port with a compound size over
+    it, below ancestors that have no parameter links of their own (the root, or a plain container)."""
+    cands = []
+    for y, path in H._nodes(r):
+        for src, ts in y["linked_params"]:
+            for t in ts:
+                if "." in t[0]:
+                    try:
+                        tgt = H.node_at(y, t[0].split("."))
+                    except IndexError:
+                        continue
+                    ports = [p for p in tgt["ports"] if p["direction"] in ("input", "through")]
+                    if ports and t[1] in tgt["input_params"] and t[1] not in H.POW_EXPONENTS:
+                        cands.append((path, tgt, t[1], ports))
+    if not cands:
+        return False
+    path, tgt, q, ports = rng.choice(cands)
+    # (never a name the target already binds through a port of that bare size)
+    if any(p["size"] is not None and p["size"][0] == "s" and p["size"][1] == q for p in tgt["ports"]):
+        return False
+    port = rng.choice(ports)
+    port["size"] = rng.choice([E.op("mul", E.num(2), E.sym(q)), E.op("add", E.sym(q), E.num(1))])
+    # every routine above the one that holds the link loses its own links (their targets become inputs of their own)
+    if not path:
+        # the link is held by the root: put a plain container (no parameters, no links) above it
+        if any(p["direction"] == "through" for p in r["ports"]):
+            return True
+        inner = dict(r)
+        ins = [p["name"] for p in inner["ports"] if p["direction"] == "input"]
+        outs = [p["name"] for p in inner["ports"] if p["direction"] == "output"]
+        r.clear()
+        r.update({"name": "top", "type": None, "input_params": [], "local_variables": [], "linked_params": [],
+                  "ports": [{"name": f"in_{k}", "direction": "input", "size": None} for k in range(len(ins))]
+                           + [{"name": f"out_{k}", "direction": "output", "size": None} for k in range(len(outs))],
+                  "resources": [], "connections": [[f"in_{k}", f"{inner['name']}.{i}"] for k, i in enumerate(ins)]
+                                                  + [[f"{inner['name']}.{o}", f"out_{k}"] for k, o in enumerate(outs)],
+                  "repetition": None, "children": [inner]})
+        return True
+    node = r
+    for name in [None] + list(path[:-1]):
+        if name is not None:
+            node = [c for c in node["children"] if c["name"] == name][0]
+        node["linked_params"] = []
+    return True
+
+
+def deep_link_family():
+    """root (port in_0: K, with or without a link of its own) -> a (parameter N, link N -> b.c.M or N -> b.c.d.M) -> b -> c
+    (-> d): the routine at the end of the deep link declares an input port with a compound size over the linked parameter."""
+    def node(name, params=(), links=(), ports=(), conns=(), kids=(), res=()):
+        return {"name": name, "type": None, "input_params": list(params), "local_variables": [], "linked_params": [list(l) for l in links],
+                "ports": list(ports), "resources": list(res), "connections": [list(c) for c in conns], "repetition": None, "children": list(kids)}
+
+    def port(n, d, size):
+        return {"name": n, "direction": d, "size": size}
+    out = []
+    for depth in (2, 3):
+        for form in (lambda m: E.op("mul", E.num(2), m), lambda m: E.op("add", m, E.num(1))):
+            for root_link in (False, True):
+                leaf = node("d" if depth == 3 else "c", params=["M"], ports=[port("in_0", "input", form(E.sym("M")))],
+                            res=[{"name": "T", "type": "additive", "value": E.sym("M")}])
+                chain = leaf
+                names = ["c", "b"] if depth == 3 else ["b"]
+                for nm in names:
+                    chain = node(nm, ports=[port("in_0", "input", None)], conns=[["in_0", f"{chain['name']}.in_0"]], kids=[chain])
+                target = "b.c.d" if depth == 3 else "b.c"
+                a = node("a", params=["N"], links=[["N", [[target, "M"]]]], ports=[port("in_0", "input", None)],
+                         conns=[["in_0", "b.in_0"]], kids=[chain])
+                root = node("root", params=["K", "J"] if root_link else ["K"], links=[["J", [["a", "N"]]]] if root_link else [],
+                            ports=[port("in_0", "input", E.sym("K"))], conns=[["in_0", "a.in_0"]], kids=[a])
+                out.append({"routine": root, "seed": 9 + depth, "n_assign": 6, "native": False, "lo": 0})
+    return out
+
+
 def gen_cases(rng, n, max_depth):
     out = []
     while len(out) < n:
@@ -173,6 +248,8 @@ def gen_cases(rng, n, max_depth):
         if H.count_nodes(r) > 9 or H.count_nodes(r) < 2:
             continue
         if rng.random() < 0.12 and shared_name_partial_link(rng, r):
+            pass
+        elif rng.random() < 0.5 and deep_link_compound(rng, r):
             pass
         elif redeclare(rng, r) == 0:
             continue
@@ -238,7 +315,7 @@ def mk_stream(cases):
 def streams(tier, seed):
     rng = lib.Rng(f"C06-{seed}")
     n = 150 if tier == "quick" else 2500
-    return [mk_stream(lib.load_corpus(PROP, "size-mismatch") + gen_cases(rng, n, 3))]
+    return [mk_stream(lib.load_corpus(PROP, "size-mismatch") + deep_link_family() + gen_cases(rng, n, 3))]
 
 
 def replay_streams(payload):
